@@ -94,6 +94,7 @@ type Func struct {
 	Results  []Result `json:"results,omitempty"`
 	HasErr   bool     `json:"has_err,omitempty"`
 	ErrFirst bool     `json:"err_first,omitempty"` // the error result is declared first instead of last (constructors / decorators)
+	ErrAt    int      `json:"err_at,omitempty"`    // >0: the error result is declared before top-level result ErrAt (in the middle)
 	Reenter  bool     `json:"reenter,omitempty"`   // constructor body calls Invoke for its own first result (re-entrant user code)
 	Variadic bool     `json:"variadic,omitempty"`
 
@@ -125,6 +126,20 @@ type LeafParam struct {
 type LeafResult struct {
 	Keys    []Key
 	Flatten bool
+}
+
+// ErrIndex is the position of the error among the function's Go results
+// (-1: none): first, in the middle, or (the usual form) last.
+func (f *Func) ErrIndex() int {
+	switch {
+	case !f.HasErr:
+		return -1
+	case f.ErrFirst:
+		return 0
+	case f.ErrAt > 0 && f.ErrAt < len(f.Results):
+		return f.ErrAt
+	}
+	return len(f.Results)
 }
 
 func (f *Func) LeafParams() []LeafParam {
@@ -211,16 +226,17 @@ func (f *Func) String() string {
 		b.WriteString(", ...")
 	}
 	b.WriteString(") -> (")
-	if f.HasErr && f.ErrFirst {
-		b.WriteString("error, ")
-	}
+	ei := f.ErrIndex()
 	for i, r := range f.Results {
-		if i > 0 {
-			b.WriteString(", ")
+		if i == ei {
+			b.WriteString("error, ")
 		}
 		b.WriteString(r.String())
+		if i < len(f.Results)-1 {
+			b.WriteString(", ")
+		}
 	}
-	if f.HasErr && !f.ErrFirst {
+	if ei >= 0 && ei == len(f.Results) {
 		b.WriteString(", error")
 	}
 	b.WriteString(")")
